@@ -1128,4 +1128,133 @@ theorem mergeVoxel_entity_order_current_quirk :
 
 example : mergeVoxel [3, -2, 8, 8, 1] = (8, 3) := by decide
 
+/-! ## deepen7: container bookkeeping, reference-point arithmetic, best entry of a sorted list -/
+
+/-- `load_pickle` returns exactly one object per record read -/
+theorem loadAll_length (rs : List Rec) : (loadAll rs).length = rs.length := by
+  simp [loadAll]
+
+/-- the round trip preserves the number of items: what is loaded back has as many entries as were handed to `write_pickle` -/
+theorem roundtrip_length (fresh : Nat → String) (items : List Item) (i : Nat) (fs : FS) :
+    (loadAll (writeItems fresh i fs items).1).length = items.length := by
+  rw [loadAll_length, pickle_count]
+
+/-- the records `write_pickle` pickles do not depend on the state of the file system (only the moved files do) -/
+theorem writeItems_recs_fs_indep (fresh : Nat → String) : ∀ (items : List Item) (i : Nat) (fs fs' : FS),
+    (writeItems fresh i fs items).1 = (writeItems fresh i fs' items).1
+  | [], _, _, _ => rfl
+  | .obj _ :: rest, i, fs, fs' => by
+    simp only [writeItems]; exact congrArg _ (writeItems_recs_fs_indep fresh rest (i + 1) fs fs')
+  | .tup _ _ :: rest, i, fs, fs' => by
+    simp only [writeItems]; exact congrArg _ (writeItems_recs_fs_indep fresh rest (i + 1) fs fs')
+  | .memmap _ _ f _ :: rest, i, fs, fs' => by
+    simp only [writeItems]; exact congrArg _ (writeItems_recs_fs_indep fresh rest (i + 1) _ _)
+
+/-- a memory map whose backing file is missing leaves the file system as it was (`FS.move` of an absent source) -/
+theorem move_absent (fs : FS) (src dst : String) (h : FS.get fs src = none) : FS.move fs src dst = fs := by
+  simp [FS.move, h]
+
+/-- reading a result path right after `write_pickle` returns the records written -/
+theorem write_then_read (d : Disk) (path : String) (rs : List Rec) :
+    Disk.read (Disk.write d path rs) path = some rs := by
+  simp [Disk.write, Disk.read]
+
+/-- writing, loading and writing the same records again leaves the same disk model (the write is idempotent) -/
+theorem write_idempotent (d : Disk) (path : String) (rs : List Rec) :
+    Disk.write (Disk.write d path rs) path rs = Disk.write d path rs := by
+  simp [Disk.write, List.filter_filter]
+
+/-- the writer's tuple always has five members and ends with the metadata, for score-map and peak-list output alike -/
+theorem writerLayout_shape (pc : Bool) : (writerLayout pc).length = 5 ∧ (writerLayout pc).getLast? = some .info := by
+  cases pc <;> exact ⟨rfl, rfl⟩
+
+/-- the box-centre reference point is the box corner shifted by `shape // 2` on every axis -/
+theorem refPos_eq_boxPos : ∀ (ms : List Nat) (P0 : List Int), refPos ms P0 = boxPos P0 (ms.map (· / 2))
+  | [], [] => rfl
+  | [], _ :: _ => rfl
+  | _ :: _, [] => rfl
+  | m :: ms, p :: ps => by
+    simp only [refPos, List.map_cons, boxPos]
+    exact congrArg _ (refPos_eq_boxPos ms ps)
+
+/-- **split-layout invariance / additivity**: shifting by `a` and then by `b` (chunk offset then local index, or planted
+translation then centre shift) is shifting once by `a + b` -/
+theorem boxPos_add : ∀ (P : List Int) (a b : List Nat),
+    boxPos (boxPos P a) b = boxPos P (List.zipWith (· + ·) a b)
+  | [], _, _ => by simp [boxPos]
+  | _ :: _, [], [] => rfl
+  | _ :: _, [], _ :: _ => rfl
+  | _ :: _, _ :: _, [] => rfl
+  | p :: ps, x :: xs, y :: ys => by
+    simp only [boxPos, List.zipWith_cons_cons]
+    rw [boxPos_add ps xs ys]
+    congr 1
+    omega
+
+/-- the reported position does not depend on which part of it is attributed to the chunk offset and which to the local index -/
+theorem boxPos_comm (P : List Int) (a b : List Nat) : boxPos (boxPos P a) b = boxPos (boxPos P b) a := by
+  rw [boxPos_add, boxPos_add, List.zipWith_comm]
+  simp only [Nat.add_comm]
+
+/-- the reference point moves with the planted translation: planting the box `t` voxels further moves `P0 + m//2` by `t` -/
+theorem refPos_translate : ∀ (ms : List Nat) (P : List Int) (t : List Nat),
+    refPos ms (boxPos P t) = boxPos (refPos ms P) t
+  | [], [], _ => by simp [refPos, boxPos]
+  | [], _ :: _, [] => rfl
+  | [], _ :: _, _ :: _ => rfl
+  | _ :: _, [], _ => by simp [refPos, boxPos]
+  | _ :: _, _ :: _, [] => rfl
+  | m :: ms, p :: ps, x :: xs => by
+    simp only [refPos, boxPos]
+    rw [refPos_translate ms ps xs]
+    congr 1
+    omega
+
+/-- sorting keeps every candidate: the sorted orientation list is as long as its input -/
+theorem sortDesc_length (l : List Vox) : (sortDesc l).length = l.length := (sortDesc_perm l).length_eq
+
+/-- **the best entry of the sorted list carries the maximum score** -/
+theorem sortDesc_head_is_max (l : List Vox) (h : Vox) (t : List Vox) (hs : sortDesc l = h :: t) :
+    h ∈ l ∧ ∀ v ∈ l, v.score ≤ h.score := by
+  have hp := sortDesc_perm l
+  have hd := sortDesc_desc l
+  rw [hs] at hp hd
+  refine ⟨hp.mem_iff.mp (List.mem_cons_self ..), fun v hv => ?_⟩
+  have hv' : v ∈ h :: t := hp.mem_iff.mpr hv
+  rcases List.mem_cons.mp hv' with rfl | hv''
+  · exact le_refl _
+  · exact (List.pairwise_cons.mp hd).1 v hv''
+
+/-- **uniqueness of the best entry**: a candidate that strictly beats every other one is the first entry of the sorted list -/
+theorem sortDesc_head_unique (l : List Vox) (p : Vox) (hp : p ∈ l) (hstrict : ∀ v ∈ l, v ≠ p → v.score < p.score) :
+    (sortDesc l).head? = some p := by
+  cases hs : sortDesc l with
+  | nil =>
+    have := sortDesc_length l
+    rw [hs] at this
+    cases l with
+    | nil => cases hp
+    | cons _ _ => simp at this
+  | cons h t =>
+    obtain ⟨hm, hmax⟩ := sortDesc_head_is_max l h t hs
+    by_cases he : h = p
+    · simp [he]
+    · have := hstrict h hm he
+      have := hmax p hp
+      omega
+
+example : (sortDesc [⟨[0], 1⟩, ⟨[1], 7⟩, ⟨[2], 3⟩]).head? = some ⟨[1], 7⟩ := by decide
+
+/-- padding branch of one schedule call stated outright: with `--pad_edges` the target padding is the template box; without it
+nothing is padded; the box handed over is the template only with Fourier padding -/
+theorem schedCall_branches (tmpl : List Nat) (pf : Bool) :
+    (schedCall tmpl pf true).padding = tmpl ∧ (schedCall tmpl pf false).padding = zerosLike tmpl ∧
+    (schedCall tmpl true false).box = tmpl ∧ (schedCall tmpl false false).box = zerosLike tmpl := by
+  cases pf <;> simp [schedCall, zerosLike]
+
+/-- centring branch: the template is centred unless `--no_centering`, whatever the padding flags and the schedule -/
+theorem scanFlags_centre (pe pf pfl nc : Bool) (cps : SchedCall → SchedAns) (tmpl tshape : List Nat) :
+    (scanFlags pe pf pfl nc cps tmpl tshape).centre = !nc ∧ (scanFlags pe pf pfl nc cps tmpl tshape).padFourier = pf ∧
+    (scanFlags pe pf pfl nc cps tmpl tshape).padTemplateFilter = pfl := ⟨rfl, rfl, rfl⟩
+
 end Pm.C18
